@@ -205,7 +205,7 @@ def line (toks : List String) : String :=
       let res : Option (R × Src × Ufw.Model.Endpoints.Snk × Aux) :=
         match fn with
         | "cbc" => let (r, a, b) := sts_cbc src snk; some (r, a, b, aux)
-        | "n_cbc" => let (r, a, b) := sts_n_cbc n src snk n; some (r, a, b, aux)
+        | "n_cbc" => let (r, a, b) := sts_n_cbc fuel n src snk n; some (r, a, b, aux)
         | "drain_cbc" => let (r, a, b) := sts_drain_cbc fuel src snk; some (r, a, b, aux)
         | "n" => let (r, a, b) := sts_n fuel src snk n n; some (r, a, b, aux)
         | "drain" => let (r, a, b) := sts_drain fuel src snk; some (r, a, b, aux)
